@@ -3,7 +3,7 @@ scratch worktree of /repo HEAD, apply, confirm the suite result is the baseline,
 Expected: exit 0 (still proved) or 3 (left the verified subset: undecided); exit 1 is a false alarm."""
 import json, os, shutil, subprocess, sys, tempfile, time
 sid, srcdir, props = sys.argv[1], os.path.abspath(sys.argv[2]), sys.argv[3:]
-V = "/verif"
+V = os.environ.get("VERIF_CODE", "/verif")      # a frozen copy of the machinery may be used so that edits made meanwhile do not leak into a batch
 wt = tempfile.mkdtemp(prefix="pams_benign_"); os.rmdir(wt)
 def sh(cmd, **kw):
     return subprocess.run(cmd, shell=True, capture_output=True, text=True, **kw)
